@@ -1,6 +1,42 @@
-(* C14 — Device resolution follows Spec-directory precedence. *)
-From Coq Require Import String List.
-From CDI Require Import Base Cache.
-Example C14_placeholder : scan nil = nil.
-Proof. reflexivity. Qed.
-Print Assumptions C14_placeholder.
+(* C14 — Injection changes nothing but the OCI spec and is repeatable. *)
+From Coq Require Import String Ascii List Bool Arith ZArith.
+From CDI Require Import Base SpecModel Parser Paths Oci Apply ApplySpec ApplyProofs Cache CacheProofs InjectSpec InjectProofs.
+Import ListNotations.
+Open Scope string_scope.
+
+(* a history of injections: each step has its own host oracle (device nodes may have been re-created), OCI spec and request *)
+Definition run_history (c : cache) (steps : list (hostfn * option oci * list string)) :=
+  map (fun st => inject (fst (fst st)) c (snd (fst st)) (snd st)) steps.
+
+(* For every history of any length: the k-th result is the declarative result computed from the loaded files and the host
+   oracle OF THAT STEP — no memory of earlier injections, host attributes read at each injection *)
+Theorem C14_history_repeatable : forall fs steps,
+  unique_names (scan fs) ->
+  run_history (refresh fs) steps =
+  map (fun st => inject_spec (fst (fst st)) (loaded (scan fs)) (snd (fst st)) (snd st)) steps.
+Proof.
+  intros fs steps U. unfold run_history. apply map_ext. intro st. apply inject_refines_spec_fs. exact U.
+Qed.
+Print Assumptions C14_history_repeatable.
+(* unspecified device attributes come from the host oracle given to THIS application (apply_meets_spec, C03) *)
+Theorem C14_attributes_from_current_host : forall host e o,
+  wf_initial o = true -> valid_edits e = true -> snd (apply host e o) = 0 ->
+  devices_post host (o_uid o) (o_gid o) (o_devices o) (somes (e_nodes e)) (o_devices (fst (apply host e o))) = true.
+Proof.
+  intros host e o W V H. destruct (apply_meets_spec host e o W V) as [_ [_ P]]. destruct (P H) as [Q _].
+  unfold apply_post_but_env in Q. repeat (apply andb_true_iff in Q as [Q _]). exact Q.
+Qed.
+Print Assumptions C14_attributes_from_current_host.
+(* C14_partial: in this pure model the cache is not an output of injection, so that the cached Specs and devices are left
+   unchanged by the real code (and can be written back) is decided by the correspondence runs: the JSON image of every cached
+   Spec and device through the query API before the first and after every injection, and a write-back + read-back of every
+   cached Spec. *)
+
+Example C14_example :
+  let fs := [("/etc/cdi", DDir [("a.json", EFile (Some (mkSpec "0.5.0" "v.com/c" [] [mkDevice "d1" [] (mkEdits [] [Some (mkDevnode "/dev/x" "/dev/host" "" 0 0 None "" None None)] [] [] None [])] empty_edits)))])] in
+  let o := mkOci [] 0 0 [] [] empty_hooks [] [] None "" in
+  let h1 := host_of [("/dev/host", ("c", 1, 2)%Z)] in let h2 := host_of [("/dev/host", ("b", 7, 8)%Z)] in
+  map (fun r => option_map (fun x => map (fun d => (od_type d, od_major d, od_minor d)) (o_devices x)) (snd r))
+      (run_history (refresh fs) [(h1, Some o, ["v.com/c=d1"]); (h2, Some o, ["v.com/c=d1"]); (h1, Some o, ["v.com/c=d1"])]) =
+  [Some [("c", 1, 2)%Z]; Some [("b", 7, 8)%Z]; Some [("c", 1, 2)%Z]].
+Proof. vm_compute. reflexivity. Qed.
